@@ -972,7 +972,7 @@ def explore(ctx, factor, bs):
     ctx.notes["stream_seconds"] = {"layouts": round(_t[1][1] - _t[0][1], 1), "occurrences": round(_t[2][1] - _t[1][1], 1),
                                    "shared-text": round(_t[3][1] - _t[2][1], 1), "typed-defaults": round(_t[4][1] - _t[3][1], 1),
                                    "regex-strings": round(_t[5][1] - _t[4][1], 1), "random": round(_t[6][1] - _t[5][1], 1)}
-    ctx.notes["exhaustive"] = f"all layouts (common, referrer chain, target chain) of groups/repeats with depth <= {depth}: {n} forms"
+    ctx.notes["exhaustive_substream"] = f"all layouts (common, referrer chain, target chain) of groups/repeats with depth <= {depth}: {n} forms"
 
 
 def replay(ctx, payload, bs):
